@@ -276,7 +276,8 @@ class Constraint:
         root_op = self._ast.root
         return (root_op.is_term() or
                 (root_op.data == ASTOperation.NOT and
-                (root_op.left.is_term() or root_op.right.is_term())))
+                 any(operand is not None and operand.is_term()
+                     for operand in (root_op.left, root_op.right))))
 
     def is_simple_constraint(self) -> bool:
         """Return true if the constraint is a simple constraint (requires or excludes)."""
